@@ -12,10 +12,31 @@ import (
 	"fmt"
 	"math/rand/v2"
 	"reflect"
+	"sort"
 	"strings"
 
 	"go.opentelemetry.io/collector/config/configopaque"
+	"go.opentelemetry.io/collector/confmap"
 )
+
+// a struct taken by marshalerHookFunc: its own Marshal marshals a free-form map[string]any holding an opaque
+// string, a number and a nested free-form section
+type C14Marsh struct {
+	S configopaque.String
+	N int
+	M map[string]any
+}
+
+func (c C14Marsh) Marshal(conf *confmap.Conf) error {
+	return conf.Marshal(map[string]any{"s": c.S, "n": c.N, "m": c.M})
+}
+
+// a struct taken by YamlMarshalerHookFunc: yaml tags, no mapstructure tags
+type C14Yaml struct {
+	S configopaque.String `yaml:"s"`
+	N int                 `yaml:"n"`
+	P string              `yaml:"p"`
+}
 
 // structs whose type has MarshalText: on values (the encoder's TextMarshaler hook fires: one string) or
 // only on pointers (the hook does not see it on the struct value: encoded field by field)
@@ -47,6 +68,7 @@ type c14Field struct {
 	exported bool
 	omit     bool
 	squash   bool
+	remain   bool // `,remain` on a map[string]any (the encoder treats it like squash)
 	tagged   bool // has a mapstructure tag at all
 	t        *c14Type
 }
@@ -95,6 +117,19 @@ func (g *c14Gen) genType(depth int, keyPos bool) *c14Type {
 	if !g.forFmt && g.rnd.IntN(10) == 0 {
 		return &c14Type{k: "VW"[g.rnd.IntN(2)]}
 	}
+	if !g.forFmt && g.rnd.IntN(9) == 0 {
+		if g.rnd.IntN(2) == 0 {
+			return &c14Type{k: 'Y'}
+		}
+		return &c14Type{k: 'H', elem: &c14Type{k: 'M', key: &c14Type{k: 'S'}, elem: &c14Type{k: 'I'}}}
+	}
+	if !g.forFmt && g.rnd.IntN(7) == 0 {
+		// free-form containers: map[string]any / []any (raw configuration sections)
+		if g.rnd.IntN(2) == 0 {
+			return &c14Type{k: 'M', key: &c14Type{k: 'S'}, elem: &c14Type{k: 'I'}}
+		}
+		return &c14Type{k: 'L', elem: &c14Type{k: 'I'}}
+	}
 	switch g.rnd.IntN(12) {
 	case 0, 1:
 		return &c14Type{k: 'O'}
@@ -142,6 +177,11 @@ func (g *c14Gen) genStruct(depth int) *c14Type {
 			case 3, 4:
 				f.squash = true
 				f.key = ""
+				if g.rnd.IntN(2) == 0 {
+					// a `,remain` section: free-form map[string]any
+					f.remain = true
+					f.t = &c14Type{k: 'M', key: &c14Type{k: 'S'}, elem: &c14Type{k: 'I'}}
+				}
 			}
 			f.omit = f.tagged && g.rnd.IntN(3) == 0
 		}
@@ -158,6 +198,14 @@ func (g *c14Gen) genVal(t *c14Type, depth int) *c14Val {
 	case 'V', 'W':
 		v.idx = g.rnd.IntN(g.nsec)
 		v.n = g.rnd.IntN(2)
+	case 'Y':
+		v.idx = g.rnd.IntN(g.nsec)
+		v.n = g.rnd.IntN(3)
+		v.s = []string{"", "a", "plain text", "[REDACTED]"}[g.rnd.IntN(4)]
+	case 'H':
+		v.idx = g.rnd.IntN(g.nsec)
+		v.n = g.rnd.IntN(3)
+		v.kids = []*c14Val{g.genVal(t.elem, depth+1)}
 	case 'S':
 		v.s = []string{"", "a", "b", "plain text", "[REDACTED]"}[g.rnd.IntN(5)]
 	case 'N':
@@ -175,6 +223,9 @@ func (g *c14Gen) genVal(t *c14Type, depth int) *c14Val {
 			dyn := g.genType(depth+1, false)
 			for dyn.k == 'I' {
 				dyn = g.genType(depth+1, false)
+			}
+			if !g.forFmt && g.rnd.IntN(5) < 2 {
+				dyn = &c14Type{k: 'O'} // an opaque string held in an `any`
 			}
 			v.kids = []*c14Val{g.genVal(dyn, depth+1)}
 		}
@@ -195,8 +246,10 @@ func (g *c14Gen) genVal(t *c14Type, depth int) *c14Val {
 			v.k = 'm'
 		} else {
 			n := g.rnd.IntN(3)
-			if g.forFmt && n > 1 {
-				n = 1 // fmt sorts map keys by their raw value: one entry keeps the leaf order independent of the secrets
+			if g.forFmt && t.key.k == 'S' {
+				n = g.rnd.IntN(4) // plain keys: several entries (the headers case); printed in fmtsort order below
+			} else if g.forFmt && n > 1 {
+				n = 1 // fmt sorts OPAQUE map keys by their raw value: the entry order would depend on the secrets
 			}
 			seen := map[string]bool{}
 			for i := 0; i < n; i++ {
@@ -206,7 +259,23 @@ func (g *c14Gen) genVal(t *c14Type, depth int) *c14Val {
 					continue // a Go map cannot hold the same key twice
 				}
 				seen[id] = true
+				if g.forFmt && t.key.k == 'S' {
+					k.s = fmt.Sprintf("%s%d", k.s, i) // distinct plain keys
+				}
 				v.kids = append(v.kids, k, g.genVal(t.elem, depth+1))
+			}
+			if g.forFmt && t.key.k == 'S' {
+				// fmt prints string keys in sorted order (internal/fmtsort): the model walks entries in the given order
+				type ent struct{ k, v *c14Val }
+				var es []ent
+				for i := 0; i+1 < len(v.kids); i += 2 {
+					es = append(es, ent{v.kids[i], v.kids[i+1]})
+				}
+				sort.Slice(es, func(i, j int) bool { return es[i].k.s < es[j].k.s })
+				v.kids = v.kids[:0]
+				for _, e := range es {
+					v.kids = append(v.kids, e.k, e.v)
+				}
 			}
 		}
 	case 'T':
@@ -232,6 +301,11 @@ func (v *c14Val) tokens(b *strings.Builder) {
 		fmt.Fprintf(b, "%c ", v.k)
 	case 'V', 'W':
 		fmt.Fprintf(b, "%c2 f:%s:e:-:- O%d f:%s:e:-:- N%d ", v.k, c14Hex("s"), v.idx, c14Hex("n"), v.n)
+	case 'Y':
+		fmt.Fprintf(b, "Y3 f:%s:e:-:- O%d f:%s:e:-:- N%d f:%s:e:-:- S%s ", c14Hex("s"), v.idx, c14Hex("n"), v.n, c14Hex("p"), c14Hex(v.s))
+	case 'H':
+		fmt.Fprintf(b, "H3 f:%s:e:-:- O%d f:%s:e:-:- N%d f:%s:e:-:- ", c14Hex("s"), v.idx, c14Hex("n"), v.n, c14Hex("m"))
+		v.kids[0].tokens(b)
 	case 'P', 'I':
 		fmt.Fprintf(b, "%c ", v.k)
 		v.kids[0].tokens(b)
@@ -281,6 +355,10 @@ func (t *c14Type) rtype(leaf reflect.Type) reflect.Type {
 		return reflect.TypeOf("")
 	case 'N':
 		return reflect.TypeOf(0)
+	case 'Y':
+		return reflect.TypeOf(C14Yaml{})
+	case 'H':
+		return reflect.TypeOf(C14Marsh{})
 	case 'V':
 		return reflect.TypeOf(C14TMV{})
 	case 'W':
@@ -307,7 +385,9 @@ func (t *c14Type) rtype(leaf reflect.Type) reflect.Type {
 				if f.omit {
 					tag += ",omitempty"
 				}
-				if f.squash {
+				if f.remain {
+					tag += ",remain"
+				} else if f.squash {
 					tag += ",squash"
 				}
 				sf.Tag = reflect.StructTag(`mapstructure:"` + tag + `"`)
@@ -331,6 +411,14 @@ func (v *c14Val) fill(dst reflect.Value, leaf reflect.Type, secrets []string, re
 	case 'V', 'W':
 		dst.Field(0).SetString(secrets[v.idx])
 		dst.Field(1).SetInt(int64(v.n))
+	case 'Y':
+		dst.Field(0).SetString(secrets[v.idx])
+		dst.Field(1).SetInt(int64(v.n))
+		dst.Field(2).SetString(v.s)
+	case 'H':
+		dst.Field(0).SetString(secrets[v.idx])
+		dst.Field(1).SetInt(int64(v.n))
+		v.kids[0].fill(dst.Field(2), leaf, secrets, reuse)
 	case 'S':
 		dst.SetString(v.s)
 	case 'N':
@@ -382,6 +470,10 @@ func (v *c14Val) fill(dst reflect.Value, leaf reflect.Type, secrets []string, re
 			vv := reflect.New(dst.Type().Elem()).Elem()
 			if old.IsValid() && len(oldKeys) == 1 && len(v.kids) == 2 {
 				vv.Set(old.MapIndex(oldKeys[0])) // single entry: keep pointers below the value
+			} else if old.IsValid() && v.kids[i].k == 'S' {
+				if ov := old.MapIndex(kk); ov.IsValid() {
+					vv.Set(ov) // plain key: the same entry as before
+				}
 			}
 			v.kids[i+1].fill(vv, leaf, secrets, reuse)
 			entries = append(entries, kvp{kk, vv})
@@ -406,7 +498,7 @@ func (v *c14Val) fill(dst reflect.Value, leaf reflect.Type, secrets []string, re
 
 // hasOpaque reports whether an opaque leaf occurs in the value.
 func (v *c14Val) hasOpaque() bool {
-	if v.k == 'O' || v.k == 'V' || v.k == 'W' {
+	if v.k == 'O' || v.k == 'V' || v.k == 'W' || v.k == 'Y' || v.k == 'H' {
 		return true
 	}
 	for _, k := range v.kids {
@@ -446,6 +538,9 @@ func c14FixedShapes() []*c14Val {
 	mp := func(k, v *c14Val) *c14Val {
 		return &c14Val{k: 'M', kids: []*c14Val{k, v}, t: &c14Type{k: 'M', key: k.t, elem: v.t}}
 	}
+	mp3 := func(kvs ...*c14Val) *c14Val {
+		return &c14Val{k: 'M', kids: kvs, t: &c14Type{k: 'M', key: kvs[0].t, elem: kvs[1].t}}
+	}
 	st := func(exported bool, vs ...*c14Val) *c14Val {
 		t := &c14Type{k: 'T'}
 		for i, v := range vs {
@@ -479,7 +574,8 @@ func c14FixedShapes() []*c14Val {
 		ptr(ptr(st(true, o(0)))),                  // **struct
 		st(true, mp(str("h"), o(0)), slice(o(1))), // config-like
 		ptr(mp(str("k"), o(0))),                   // *map
-		ptr(array(o(0))),                          // *[1]String
+		mp3(str("a"), o(0), str("b"), o(1), str("c"), o(2)), // several headers: map[string]opaque with three entries
+		ptr(array(o(0))), // *[1]String
 	}
 }
 
